@@ -77,7 +77,7 @@ Definition hwrite (h : fhandle) (data : list N) : M fhandle :=
   spy_h h PWrite
     (fun w => let '(r, (s', h')) := fs_write (w_st w) (fh h) data in
               match r with
-              | Ok _ => (MOk (set_fh h h'), mkWorld s' (w_trace w) (w_ticks w) (w_crash w) (w_faults w))
+              | Ok _ => (MOk (set_fh h h'), mkWorld s' (w_trace w) (w_ticks w) (w_crash w) (w_faults w) (w_infos w))
               | Err e => (MErr e, w)
               end).
 
@@ -239,28 +239,30 @@ Definition read_dir_names (b : fsapi) (dirname : str) : M (list str) :=
 Definition is_dir_info (fi : finfo) : bool :=
   match fi_kind fi with KDir => true | _ => false end.
 
-(** [fn] is the success branch of the callers' callbacks; every caller
-    returns the error it is handed, so errors simply propagate *)
-Fixpoint walk_tree (fuel : nat) (b : fsapi) (path : str) (info : finfo)
-         (fn : str -> finfo -> M unit) : M unit :=
+(** [fn] is the success branch of the callers' callbacks (it threads the
+    callers' captured variables as an accumulator); every caller returns the
+    error it is handed, so errors simply propagate *)
+Fixpoint walk_fold {A} (fuel : nat) (b : fsapi) (path : str) (info : finfo)
+         (fn : A -> str -> finfo -> M A) (acc : A) : M A :=
   match fuel with
   | O => fail EFUEL
   | S fuel' =>
-      fn path info ;;;
+      acc1 <- fn acc path info ;;
       if is_dir_info info then
         names <- read_dir_names b path ;;
-        miter (fun name =>
+        mfold (fun a name =>
                  let filename := join2 path name in
                  fi <- a_lstat b filename ;;
-                 walk_tree fuel' b filename fi fn) names
-      else ret tt
+                 walk_fold fuel' b filename fi fn a) names acc1
+      else ret acc1
   end.
 
 Definition tree_fuel : nat := (64 * 64)%nat.
 
-Definition walk_m (b : fsapi) (root : str) (fn : str -> finfo -> M unit) : M unit :=
+(** [Walk fsys root walkFn] *)
+Definition walk_m {A} (b : fsapi) (root : str) (fn : A -> str -> finfo -> M A) (acc : A) : M A :=
   info <- a_lstat b root ;;
-  walk_tree tree_fuel b root info fn.
+  walk_fold tree_fuel b root info fn acc.
 
 (** * PrefixFS *)
 
@@ -287,28 +289,16 @@ Definition volumefs (b : fsapi) : fsapi := layered volume_layer b.
 
 (** * HiddenFS *)
 
-(** the walk callback of HiddenFS.RemoveAll: collects non-hidden directories
-    (in [dirs], a list threaded through the world is not available, so the
-    walk is written with an accumulator) *)
-Fixpoint hidden_walk (fuel : nat) (hs : list str) (b self : fsapi) (path : str) (info : finfo)
-         (dirs : list str) : M (list str) :=
-  match fuel with
-  | O => fail EFUEL
-  | S fuel' =>
-      match is_hidden path hs with
-      | None => fail (ELayer EHiddenCheck)
-      | Some hid =>
-          dirs1 <- (if hid then ret dirs
-                    else if is_dir_info info then ret (dirs ++ [path])
-                    else a_remove self path ;;; ret dirs) ;;
-          if is_dir_info info then
-            names <- read_dir_names b path ;;
-            mfold (fun acc name =>
-                     let filename := join2 path name in
-                     fi <- a_lstat b filename ;;
-                     hidden_walk fuel' hs b self filename fi acc) names dirs1
-          else ret dirs1
-      end
+(** the walk callback of HiddenFS.RemoveAll: skips hidden entries, collects
+    directories, removes everything else through the layer's own Remove *)
+Definition hidden_walk_fn (hs : list str) (self : fsapi) (dirs : list str) (path : str) (info : finfo)
+  : M (list str) :=
+  match is_hidden path hs with
+  | None => fail (ELayer EHiddenCheck)
+  | Some true => ret dirs
+  | Some false =>
+      if is_dir_info info then ret (dirs ++ [path])
+      else a_remove self path ;;; ret dirs
   end.
 
 Definition hidden_removeall (hs : list str) (b self : fsapi) (name : str) : M unit :=
@@ -318,8 +308,7 @@ Definition hidden_removeall (hs : list str) (b self : fsapi) (name : str) : M un
   | Ok fi =>
       if negb (is_dir_info fi) then a_remove self name
       else
-        info <- a_lstat b name ;;
-        dirs <- hidden_walk tree_fuel hs b self name info [] ;;
+        dirs <- walk_m b name (hidden_walk_fn hs self) [] ;;
         miter (fun d =>
                  match is_parent_of_hidden d hs with
                  | None => fail (ELayer EHiddenCheck)
